@@ -54,6 +54,11 @@ def obligations(ctx):
             r.notes.append("apply_surf_only call unreachable in the encoding")
 
     out += or_expansion(ctx)
+    # the range test of the temporal pruner and the zone-level NOT are part of "the predicate selects the same rows on disk"
+    from . import c08
+    for r_ in c08.temporal_minmax(ctx):
+        r_.id = "B-3"
+        out.append(r_)
     return out
 
 
